@@ -113,7 +113,9 @@ func NewAuthWorld(t *testing.T) *AuthWorld {
 	w.coord = ibctesting.NewCoordinator(t, 2)
 	w.A = w.coord.GetChain(ibctesting.GetChainID(1))
 	w.B = w.coord.GetChain(ibctesting.GetChainID(2))
-	w.get = func(ctx sdk.Context, addr sdk.AccAddress) sdk.AccountI { return w.A.GetSimApp().AccountKeeper.GetAccount(ctx, addr) }
+	w.get = func(ctx sdk.Context, addr sdk.AccAddress) sdk.AccountI {
+		return w.A.GetSimApp().AccountKeeper.GetAccount(ctx, addr)
+	}
 	w.acct["creator"] = Acct{Priv: w.A.SenderPrivKey, Addr: w.A.SenderAccount.GetAddress()}
 	w.acct["relayer"] = NewAcct()
 	w.acct["stranger"] = NewAcct()
@@ -217,7 +219,9 @@ func (w *AuthWorld) reset() error {
 	return nil
 }
 
-func payload() channeltypesv2.Payload { return mockv2.NewMockPayload(mockv2.ModuleNameA, mockv2.ModuleNameB) }
+func payload() channeltypesv2.Payload {
+	return mockv2.NewMockPayload(mockv2.ModuleNameA, mockv2.ModuleNameB)
+}
 
 func (w *AuthWorld) now() int64 { return w.coord.CurrentTime.Unix() }
 
